@@ -50,6 +50,24 @@ def G5(head_left=True):
                 unary=[], roots=[2, 3], uniform=True)
 
 
+def G9(head_left=False):
+    """tag ambiguity on the middle word of three (A {B1,B2} C) with attachment ambiguity: 3 derivations; cats A=0 B1=1 B2=2 C=3 | X=4 Y=5 S=6"""
+    h = 1 if head_left else 0
+    return dict(name='G9' if head_left else 'G9r', ncats=7, T=4, binary=[(0, 2, 4, h, 'ab2'), (0, 1, 4, h, 'ab1'), (4, 3, 6, h, 'xc'), (1, 3, 5, h, 'bc'), (0, 5, 6, h, 'ay')],
+                unary=[], roots=[6], uniform=True)
+
+
+def G9_slice(head_left=False):
+    """(below, eq) for G9: word 0 admits A, word 1 admits B1 and B2, word 2 admits C (pruning 2: the second tag of words 0 and 2 is a dead end, held at -20);
+    the lexical scores of A and C are held at 0 and the dependency cells no derivation of the grammar uses at -3 (they still enter the per-token bound);
+    symbolic: both tag scores of word 1 and every dependency cell a derivation uses"""
+    below = [(0, 3), (0, 1), (0, 2), (1, 0), (1, 3), (2, 0), (2, 1), (2, 2)]
+    eq = [('t', 0, 0, 0), ('t', 2, 3, 0), ('t', 0, 3, -20), ('t', 0, 1, -21), ('t', 0, 2, -22), ('t', 1, 0, -20), ('t', 1, 3, -21), ('t', 2, 0, -20), ('t', 2, 1, -21), ('t', 2, 2, -22)]
+    used = {(0, 2), (0, 3), (1, 3), (2, 0)} if not head_left else {(1, 1), (2, 1), (2, 2), (0, 0)}
+    eq += [('d', i, h, -3) for i in range(3) for h in range(4) if (i, h) not in used]
+    return below, eq
+
+
 def G7(head_left=False):
     """a unary step over a two-word span whose head is not its first word, then attached further (n = 3)"""
     h = 1 if head_left else 0
@@ -132,7 +150,7 @@ class SOb:
         c = self.cfg
         return A.spec_text(self.n, self.g['T'], self.g['binary'], self.g['unary'], self.g['roots'], nbest=c.get('nbest', 1),
                            pruning=c.get('pruning', self.g['T']), use_beta=c.get('use_beta', False), beta=c.get('beta', 0.5),
-                           max_step=c.get('max_step', 100000), penalty=c.get('penalty', 'sym'), below=self.below, checks=checks, flat=c.get('flat', ()), lo=c.get('lo'),
+                           max_step=c.get('max_step', 100000), penalty=c.get('penalty', 'sym'), below=self.below, checks=checks, flat=c.get('flat', ()), lo=c.get('lo'), eq=c.get('eq', ()),
                            records=records, record_every=record_every)
 
     def job(self, model):
